@@ -30,9 +30,25 @@ const (
 	kSliceS
 	kArrPtr
 	kArrVal
+	kMapNamed
 )
 
-var kindNames = []string{"*H", "map[string]int", "map[int]string", "[]int", "[]string", "*[3]int", "[3]int"}
+var kindNames = []string{"*H", "map[string]int", "map[int]string", "[]int", "[]string", "*[3]int", "[3]int", "NM(map[string]int with method Total)"}
+
+// NM is a named map type with a method: an entry may have the method's name.
+type NM map[string]int
+
+func (m NM) Total() int {
+	t := 0
+	for _, v := range m {
+		t += v
+	}
+	return t
+}
+
+// names every object inherits from Object.prototype (reads give the inherited
+// function unless the map has such an entry)
+var inheritedNames = map[string]bool{"toString": true, "hasOwnProperty": true, "constructor": true, "valueOf": true}
 
 // H is the bridged struct of the histories.
 type H struct {
@@ -85,6 +101,16 @@ func freshLive(k ckind) *live {
 			// size-preserving replacements: one key leaves, another arrives
 			{"go:delete(m,a);m[c]=3", func() { delete(m, "a"); m["c"] = 3 }},
 			{"go:m[c]=3", func() { m["c"] = 3 }},
+		}
+	case kMapNamed:
+		m := NM{"a": 1, "Total": 40}
+		lv.setv = m
+		lv.gov = func() reflect.Value { return reflect.ValueOf(m) }
+		lv.goOps = []goOp{
+			{"go:m[Total]=7", func() { m["Total"] = 7 }},
+			{"go:delete(m,Total)", func() { delete(m, "Total") }},
+			{"go:m[toString]=3", func() { m["toString"] = 3 }},
+			{"go:delete(m,a);m[length]=2", func() { delete(m, "a"); m["length"] = 2 }},
 		}
 	case kMapIS:
 		m := map[int]string{1: "one", 3: "three"}
@@ -212,6 +238,8 @@ func keysFor(k ckind, jsLen int) []string {
 		return []string{"A", "B", "C", "d", "e", "E", "zz"}
 	case kMapSI:
 		return []string{"a", "zz", "0", "length"}
+	case kMapNamed:
+		return []string{"a", "Total", "length", "toString", "hasOwnProperty", "constructor", "0", "zz"}
 	case kMapIS:
 		return []string{"1", "2", "abc"}
 	case kSliceI, kSliceS:
@@ -324,7 +352,7 @@ func dataKeys(k ckind, held reflect.Value) map[string]bool {
 		for i := 0; i < held.NumMethod(); i++ {
 			out[held.Type().Method(i).Name] = true
 		}
-	case kMapSI, kMapIS:
+	case kMapSI, kMapIS, kMapNamed:
 		for _, mk := range v.MapKeys() {
 			out[bridge.KeyString(mk)] = true
 		}
@@ -366,7 +394,7 @@ func (h *histRig) observe() *hobs {
 		for i := 0; i < hv.NumField(); i++ {
 			o.slots[hv.Type().Field(i).Name] = renderAny(hv.Field(i))
 		}
-	case kMapSI, kMapIS:
+	case kMapSI, kMapIS, kMapNamed:
 		for _, mk := range hv.MapKeys() {
 			o.slots[bridge.KeyString(mk)] = renderAny(hv.MapIndex(mk))
 		}
@@ -595,9 +623,14 @@ func expectedRead(k ckind, o *hobs, key string) string {
 			return leaf(hv.FieldByName(f.Name)) + "/b:1"
 		}
 		return "u/b:0"
-	case kMapSI:
+	case kMapSI, kMapNamed:
+		// the live Go map is the single source of truth: an entry wins over a
+		// method of the (named) map type and over inherited names
 		if v := hv.MapIndex(reflect.ValueOf(key)); v.IsValid() {
 			return leaf(v) + "/b:1"
+		}
+		if (k == kMapNamed && key == "Total") || inheritedNames[key] {
+			return "o:Function/b:1"
 		}
 		return "u/b:0"
 	case kMapIS:
@@ -675,7 +708,7 @@ func slotType(k ckind, pre *hobs, key string) (string, reflect.Type, string) {
 			return "field", f.Type, f.Name
 		}
 		return "expando", nil, "x:" + key
-	case kMapSI:
+	case kMapSI, kMapNamed:
 		return "mapkey", tInt, key
 	case kMapIS:
 		if _, err := strconv.Atoi(key); err != nil {
@@ -705,7 +738,7 @@ func postSlot(k ckind, post *hobs, name string) reflect.Value {
 	switch k {
 	case kStruct:
 		return hv.FieldByName(name)
-	case kMapSI:
+	case kMapSI, kMapNamed:
 		return hv.MapIndex(reflect.ValueOf(name))
 	case kMapIS:
 		i, _ := strconv.Atoi(name)
